@@ -224,6 +224,10 @@ func (t *CallableType) IsAssignable(o px.Type, g px.Guard) bool {
 	if oc.paramsType != nil && (t.paramsType == nil || !isAssignable(oc.paramsType, t.paramsType)) {
 		return false
 	}
+	if oc.paramsType == nil && t.paramsType != nil {
+		// The other callable says nothing about its parameters: it cannot be called the way this one constrains
+		return false
+	}
 
 	if t.blockType == nil {
 		return oc.blockType == nil
